@@ -101,6 +101,12 @@ def r141_142(facts, res):
             for f in v['fields']:
                 n += 1
                 for at in f.get('attrs', []):
+                    if 'CfgTrace' in at or at.lstrip('#[ ').startswith('cfg'):
+                        # a field that exists in this build configuration only: the derived schema is positional, so a writer and a reader
+                        # compiled under different configurations (a build script and the program it generates code for) disagree on the layout
+                        res.bad(R2, 'cfg-field:%s.%s' % (a, f['name']), '%s:%s' % (ad['file'], ad['lo']),
+                                'field exists only under a #[cfg(..)] that holds in this build: the serialised layout depends on the build configuration '
+                                '(build scripts and the programs they generate for need not agree on it)')
                     if 'wincode' in at or ('serde' in at and 'skip' in at):
                         res.bad(R2, 'attr:%s.%s' % (a, f['name']), '%s:%s' % (ad['file'], ad['lo']),
                                 'field carries a schema-altering attribute (%s): it is written/read differently from its declared type or not at all' % at)
